@@ -2,6 +2,7 @@
    constraints.  Property theorems; proofs are in Proofs.v, LinkC09.v, Search.v. *)
 From Coq Require Import ZArith List Bool.
 From LV Require Import Route.Model Route.Proofs Route.LinkC09 Route.Search.
+From LV Require Import Route.Dijkstra Route.DijkstraProofs.
 Import ListNotations.
 Local Open Scope Z_scope.
 
@@ -126,3 +127,68 @@ Theorem C19_search_sound :
     0 < amt ->
     route_valid g en rs amt src dst (new_route en src amt es) szs = true.
 Proof. exact search_sound. Qed.
+
+(* ---------- findPath's search loop (Route/Dijkstra.v) ----------
+
+   [greach s]: state s of the loop (distance map, heap, partialPath) is
+   reachable from the initial state by processEdge calls (LRelax: any edge the
+   unifier may hand out for the current pivot, any payload size, any answer
+   [ep] of the probability source) and heap pops (LPop: ANY entry that is
+   minimal w.r.t. distanceHeap.Less), every processEdge call satisfying the
+   DOMAIN GUARDS [guard]:
+     - policy fields are unsigned (base, rate, time lock delta >= 0),
+     - the probability source answers a number in [0,1],
+     - amountToSend * timeLockDelta * 15 < 2^63 and
+       pivot.weight + edgeWeight < 2^63 (Go's int64 arithmetic in edgeWeight
+       and tempWeight does not wrap; the model computes with wrap64).
+   [keyops_ok K]: the float64 operations used for the heap key are monotone
+   (total order; p*e <= p for 0 <= e <= 1; getProbabilityBasedDist monotone in
+   the weight and antitone in the probability). *)
+
+(* CHAIN STABILITY.  Once a node is finalised (popped: in the distance map and
+   off the heap) its entry is never changed again and it never re-enters the
+   heap, in every continuation of the run. *)
+Theorem C19_chain_stable :
+  forall (K : keyops), keyops_ok K ->
+  forall g en rs amt src dst last_size (minprob : kP K),
+    0 <= fee_limit rs -> 0 < amt ->
+  forall s s' v x,
+    greach K g en rs amt src dst last_size minprob s ->
+    gsteps K g en rs amt src dst minprob s s' ->
+    finalised K s v x -> finalised K s' v x.
+Proof. exact chain_stable. Qed.
+
+(* heap.Pop returns entries in non-decreasing key order (dist ascending,
+   probability descending): the Dijkstra finalisation argument. *)
+Theorem C19_pops_sorted :
+  forall (K : keyops), keyops_ok K ->
+  forall g en rs amt src dst last_size (minprob : kP K),
+    0 <= fee_limit rs -> 0 < amt ->
+  forall s v s',
+    greach K g en rs amt src dst last_size minprob s ->
+    exec K g en rs amt src dst minprob s (LPop K v) = Some s' ->
+    s_pivot K s = init_pivot K en amt dst last_size \/
+    key_lt K (s_pivot K s') (s_pivot K s) = false.
+Proof.
+  intros K KO g en rs amt src dst last_size minprob Hf Ha s v s' Hr He.
+  exact (pops_sorted K KO g en rs amt src dst last_size minprob Hf Ha s v s' Hr I He).
+Qed.
+
+(* SOUNDNESS OF findPath + newRoute.  When the source has been popped, the
+   nextHop chain that findPath unravels from the distance map exists, is
+   unique, and the route newRoute builds from it passes the checker (hence, by
+   C19_checker_sound, satisfies every clause of the property).  [szs] are the
+   payload sizes the size oracle answered for the hops of the chain. *)
+Theorem C19_findpath_sound :
+  forall (K : keyops), keyops_ok K ->
+  forall g en rs amt src dst last_size (minprob : kP K),
+    0 <= fee_limit rs -> 0 < amt ->
+  forall s,
+    greach K g en rs amt src dst last_size minprob s ->
+    s_done K s = true ->
+    exists es szs,
+      (forall fuel, (length es <= fuel)%nat ->
+                    unravel K dst fuel (s_dm K s) src = Some es) /\
+      (forall fuel es', unravel K dst fuel (s_dm K s) src = Some es' -> es' = es) /\
+      route_valid g en rs amt src dst (new_route en src amt es) szs = true.
+Proof. exact findpath_sound. Qed.
